@@ -80,6 +80,8 @@ def model_case_to_harness(mc, idx, rng, movie_ts, startpos, scale=False, name="m
             calls.append({"op": "write", "t": c["t"], "len": ln, "fill": (idx * 1009 + len(calls) * 31) & 0xFFFFFF,
                           "dur": big(widen(frombig(c["dur"]), scale)), "cts": c["cts"], "sync": c["sync"],
                           "valid": c["valid"]})
+            if "fault" in c:
+                calls[-1]["fault"], calls[-1]["written"] = c["fault"], c["written"]
     return {"id": "%s-%d" % (name, idx), "seed": idx,
             "cfg": {"major": s4("isom"), "minor": big(512), "brands": [s4("isom"), s4("iso2")],
                     "timescale": big(movie_ts)},
@@ -153,8 +155,11 @@ def mux_generate(tier, wd, rng, cfgs):
             raise ToolError("TLC failed on %s:\n%s" % (cfg, r["tail"][-2500:]))
         stats.append({"cfg": cfg, "states": r["states"], "distinct": r["distinct"], "depth": r["depth"],
                       "cases": len(r["cases"]), "actions": r["actions"], "wall": round(r["wall"], 1)})
-        for a in ("IStart", "IAddTrack", "IWriteSample", "IRejectWrite", "IWriteEnd"):
-            if a == "IRejectWrite" and "MaxRejects = 0" in open(os.path.join(SPEC, cfg + ".cfg")).read():
+        cfgtext = open(os.path.join(SPEC, cfg + ".cfg")).read()
+        for a in ("IStart", "IAddTrack", "IWriteSample", "IRejectWrite", "IWriteEnd", "IWriteSampleFault"):
+            if a == "IRejectWrite" and "MaxRejects = 0" in cfgtext:
+                continue
+            if a == "IWriteSampleFault" and "MaxFaults = 0" in cfgtext:
                 continue
             if r["actions"].get(a, 0) == 0:
                 raise ToolError("vacuity: action %s never taken in %s" % (a, cfg))
@@ -201,6 +206,8 @@ def report_mux(prop, tier, tags, res, cases, stats, t0, known, level, mc_cfgs):
     for f in res["fails"]:
         if f["prop"] not in tags:
             other += 1
+            if os.environ.get("VERIF_DEBUG"):
+                log("  other: %s %s %s" % (f["prop"], f["what"], json.dumps(f["detail"])[:160]))
             continue
         k = match_known(prop, f, known) or match_known(f["prop"], f, known)
         text = "%s: %s %s (run %s, trace line %s)" % (f["prop"], f["what"], json.dumps(f["detail"])[:200], f["run"], f["line"])
@@ -384,9 +391,12 @@ def c17_cases(tier, rng):
                       "pos": [], "calls": calls})
         n[0] += 1
 
-    def w(t, ln=3, dur=1, cts=0, sync=True, valid=True):
-        return {"op": "write", "t": t, "len": ln, "fill": rng.randrange(1 << 24), "dur": big(dur), "cts": cts,
-                "sync": sync, "valid": valid}
+    def w(t, ln=3, dur=1, cts=0, sync=True, valid=True, fault=None, written=0):
+        d = {"op": "write", "t": t, "len": ln, "fill": rng.randrange(1 << 24), "dur": big(dur), "cts": cts,
+             "sync": sync, "valid": valid}
+        if fault:
+            d["fault"], d["written"] = fault, written
+        return d
 
     U = 0xFFFFFFFF
     # timescales (track and movie) over the whole range, incl. zero
@@ -420,6 +430,16 @@ def c17_cases(tier, rng):
     # a track that never receives a sample next to one that does
     add([full_conf("avc", 1000, rng), full_conf("aac", 1000, rng)], [w(2), w(2)])
     add([full_conf(k, 1000, rng) for k in KINDS], [])
+    # the stream fails during one or more write_sample calls and the history goes on: later calls
+    # return something, they do not panic (timescale 2: a flush every 2 ticks)
+    for kind in KINDS:
+        for pat in ("F.", "F..", ".F.", "FF.", "F.F.", "..F..", "F", ".F"):
+            for fk in ("seek", "write"):
+                ws = [w(1, ln=rng.choice([0, 1, 5]), dur=rng.choice([2, 3]), fault=(fk if ch == "F" else None),
+                        written=rng.choice([0, 1, 4])) for ch in pat]
+                add([full_conf(kind, 2, rng)], ws, tag="fault")
+    add([full_conf("avc", 2, rng), full_conf("aac", 3, rng)],
+        [w(1, dur=2, fault="write"), w(2, dur=3, fault="seek"), w(2, dur=1), w(1, dur=1), w(2, dur=5), w(1, dur=2)], tag="fault")
     # dimensions
     for kind in ("avc", "hevc", "vp9"):
         c = full_conf(kind, 1000, rng)
@@ -445,15 +465,26 @@ def c17(prop, tier, replay):
         res = validate_sharded("Trace_Mux", cases, wd, "replay", 1)
         report_mux(prop, tier, tags, res, cases, [], t0, known, "model_checking", [])
         return
-    stats, gen = mux_generate(tier, wd, rng, ["MC_MuxImpl_q"])
+    stats, gen = mux_generate(tier, wd, rng, ["MC_MuxImpl_q", "MC_MuxImpl_fault"])
     cases = c17_cases(tier, rng)
+    # histories of the model in which the stream fails during write_sample calls, replayed
+    for cfg, mcs in gen:
+        if cfg != "MC_MuxImpl_fault":
+            continue
+        fl = [m for m in mcs if any("fault" in c for c in m["calls"])]
+        lim = 600 if tier == "quick" else 20000
+        pick = fl if len(fl) <= lim else rng.sample(fl, lim)
+        if not pick:
+            raise ToolError("vacuity: MC_MuxImpl_fault produced no history with a failing stream")
+        for i, m in enumerate(pick):
+            cases.append(model_case_to_harness(m, i, rng, 3, 0, name="mcfault"))
     # both arithmetic profiles: overflow checks on (dev) and off (release)
     res = validate_sharded("Trace_Mux", cases, wd, "deg-debug", 6 if tier == "quick" else 12, profile="debug")
     res2 = validate_sharded("Trace_Mux", cases, wd, "deg-release", 6 if tier == "quick" else 12, profile="release")
     res["fails"] += res2["fails"]
     for k in ("events", "runs", "states"):
         res[k] += res2[k]
-    report_mux(prop, tier, tags, res, cases, stats, t0, known, "model_checking", ["MC_MuxImpl_q"])
+    report_mux(prop, tier, tags, res, cases, stats, t0, known, "model_checking", ["MC_MuxImpl_q", "MC_MuxImpl_fault"])
 
 
 # ----------------------------------------------------------------------------------------
